@@ -252,6 +252,15 @@ fn run(cfg: &RunCfg) -> Report {
                     p.log.clear();
                 }
             }
+            // (a') the same packet dressed up with the IC bit and a plausible integrity trailer, PEC wrong
+            for v in ic_trailer_variants(base) {
+                for d in [0x01u8, 0x80, 0xFF] {
+                    let mut x = v.clone();
+                    let l = x.len();
+                    x[l - 1] ^= d;
+                    bad(p, &x, "ic-trailer-wrong-pec", rep);
+                }
+            }
             // (b) every burst of <= 8 bits at every bit offset
             if bi % 3 == 0 || bi < burst_bases {
                 let nbits = n * 8;
